@@ -166,6 +166,15 @@ func (s *Sim) opConnect(op *Op) {
 		for _, id := range q2 {
 			sl.expect(&Expect{Kind: rc.PUBREC, PID: uint16(id), Optional: true, Rule: "C07/unsolicited-response", What: "repeated PUBREC of an own QoS 2 publish in progress", Step: m.Step, SP: -1})
 		}
+		late := make([]int, 0, len(sess.LateAcks))
+		for id := range sess.LateAcks {
+			late = append(late, int(id))
+		}
+		sort.Ints(late)
+		for _, id := range late {
+			sl.expect(&Expect{Kind: sess.LateAcks[uint16(id)], PID: uint16(id), Optional: true, Rule: "C07/unsolicited-response", What: "acknowledgement of a request made on the previous connection", Step: m.Step, SP: -1})
+		}
+		sess.LateAcks = nil
 		// every unacknowledged message is redelivered
 		for _, o := range sess.Out {
 			o.Offline = false
@@ -785,6 +794,15 @@ func (s *Sim) connectionEndedModel(sl *Slot, why string, resumedByTakeover bool)
 	}
 	sess.Slot = nil
 	sess.LastRecvMax = sl.RecvMax
+	for _, e := range sl.Exp {
+		if !e.Done && e.PID != 0 && (e.Kind == rc.PUBACK || e.Kind == rc.PUBREC || e.Kind == rc.PUBCOMP) {
+			// the broker may have stored the acknowledgement it could not deliver and hand it over when the session resumes
+			if sess.LateAcks == nil {
+				sess.LateAcks = map[uint16]byte{}
+			}
+			sess.LateAcks[e.PID] = e.Kind
+		}
+	}
 	sess.DiscAt = m.Now
 	// messages sent but unacknowledged stay owed; expectations on the dead connection are void
 	for _, e := range sl.Exp {
